@@ -88,6 +88,9 @@ class Snapshots:
             return {f"ammos[{op['ammo']}].temp_modifier"}
         if k == "edit":
             f = "drag_table" if op["field"].startswith("CD@") else op["field"]
+            if op["kind"] == "atmos" and f == "humidity":
+                # the property setter stores the value and refreshes what is derived from it
+                return {f"atmos[{op['index']}].{x}" for x in ("humidity", "_humidity", "_density_ratio")}
             return {f"{op['kind']}[{op['index']}].{f}"}
         if k in ADMIN_OPS:
             return {"globals."}
